@@ -51,6 +51,7 @@ type dbStep struct {
 	KC         string     `json:"kc"`    // argument class of the key for putx/delx/getx: nil | empty | ok
 	VC         string     `json:"vc"`    // argument class of the value for putx
 	Sched      []schedStep `json:"sched"` // op "sched": a complete schedule of the concurrent model (GenSimpleDBConc.tla)
+	MF         bool       `json:"mf"`       // put / del: the environment may make this call fail (injected I/O error); close: an error is tolerated
 	DirectIO   bool       `json:"directio"` // open: EnableDirectIOWAL (with the synchronous WAL every mutation is refused by design)
 }
 
@@ -404,7 +405,11 @@ func (x *dbExec) step(db *simpledb.DB, s dbStep, g int) (*simpledb.DB, error) {
 			return nil, nil
 		}
 		if err := db.Close(); err != nil {
-			rec.emit(M{"t": "bgfail", "msg": "close failed: " + err.Error()})
+			if s.MF {
+				rec.emit(M{"t": "note", "name": "close after an injected I/O error: " + err.Error()})
+			} else {
+				rec.emit(M{"t": "bgfail", "msg": "close failed: " + err.Error()})
+			}
 		}
 		return nil, nil
 	}
@@ -417,7 +422,7 @@ func (x *dbExec) step(db *simpledb.DB, s dbStep, g int) (*simpledb.DB, error) {
 	}
 	switch s.Op {
 	case "put":
-		rec.emit(M{"t": "inv", "g": g, "op": "put", "k": s.K, "v": s.V, "kc": "ok", "vc": "ok", "fl": flavorOf(s), "mf": x.mayFail})
+		rec.emit(M{"t": "inv", "g": g, "op": "put", "k": s.K, "v": s.V, "kc": "ok", "vc": "ok", "fl": flavorOf(s), "mf": x.mayFail || s.MF})
 		var err error
 		if s.Flavor == "string" {
 			err = db.Put(string(x.keys[s.K]), string(valBytes(s.V, s.Pad)))
@@ -426,7 +431,7 @@ func (x *dbExec) step(db *simpledb.DB, s dbStep, g int) (*simpledb.DB, error) {
 		}
 		rec.emit(M{"t": "ret", "g": g, "r": okOrErr(err)})
 	case "del":
-		rec.emit(M{"t": "inv", "g": g, "op": "del", "k": s.K, "v": "", "kc": "ok", "vc": "ok", "fl": flavorOf(s), "mf": x.mayFail})
+		rec.emit(M{"t": "inv", "g": g, "op": "del", "k": s.K, "v": "", "kc": "ok", "vc": "ok", "fl": flavorOf(s), "mf": x.mayFail || s.MF})
 		var err error
 		if s.Flavor == "string" {
 			err = db.Delete(string(x.keys[s.K]))
@@ -498,6 +503,21 @@ func (x *dbExec) step(db *simpledb.DB, s dbStep, g int) (*simpledb.DB, error) {
 		if err != nil {
 			rec.emit(M{"t": "bgfail", "msg": "compaction cycle failed: " + err.Error()})
 		}
+	case "damage":
+		// flip one byte of a file of a live table (s.Match = directory name, s.Which = file name, s.Pos = offset from the END of the file)
+		fp := filepath.Join(x.dir, s.Match, s.Which)
+		b, err := os.ReadFile(fp)
+		if err == nil && len(b) > s.Pos && s.Pos > 0 {
+			f, err2 := os.OpenFile(fp, os.O_WRONLY, 0)
+			if err2 == nil {
+				_, err2 = f.WriteAt([]byte{b[len(b)-s.Pos] ^ 0x20}, int64(len(b)-s.Pos))
+				f.Close()
+			}
+			err = err2
+		} else if err == nil {
+			err = fmt.Errorf("file has %d bytes", len(b))
+		}
+		rec.emit(M{"t": "note", "name": fmt.Sprintf("damage armed: %s/%s byte -%d: %v", s.Match, s.Which, s.Pos, err)})
 	case "sleep":
 		time.Sleep(time.Duration(s.Us) * time.Microsecond)
 	case "par":
